@@ -55,7 +55,7 @@ Definition seed2_out_wrong : list token :=
     tIn "get"; tP KQuo "/"; tI "e"; tP KQuo "/"; tP KColon ":"; tI "id"; tPn KRBrace "}" ].
 Definition seed2_case (ftoks : list token) (fast : api) (fc : list cmt) : case :=
   mkCase None None true seed2_src [(11, "// fetch one")] [true] (Some (seed2_route (Some (Some (Body false false "Foo"))))) OOk OOk
-         ftoks fc (Some fast) true true true false [].
+         ftoks fc (Some fast) true true true true false [].
 
 Theorem seed2_response_swallowed_refuted :
   agrees (seed2_case seed2_out_wrong (seed2_route' None None) [(11, "// fetch one returns (Foo)")]) = true /\
@@ -89,7 +89,7 @@ Proof. vm_compute. split; reflexivity. Qed.
    reordering two is rejected even when lost comments inside one-line constructs are tolerated *)
 Definition cm_case (out : list cmt) : case :=
   mkCase None None true (print emb) [(3, "// after brace"); (4, "// after Foo")] [true; true] (Some emb) OOk OOk
-         (print emb) out (Some emb) true true true false [].
+         (print emb) out (Some emb) true true true true false [].
 Theorem comment_checks_refuted :
   prop_ok (cm_case [(3, "// after brace"); (4, "// after  Foo")]) = true /\
   prop_ok (cm_case [(3, "// after brace")]) = false /\
@@ -99,7 +99,7 @@ Proof. vm_compute. repeat split; reflexivity. Qed.
 
 (* an inline comment (between a field name and its type) may be lost unless [c_strict] *)
 Definition inl_case (strict : bool) : case :=
-  mkCase None None true (print emb) [(5, "/* c */")] [true] (Some emb) OOk OOk (print emb) [] (Some emb) true true true strict [].
+  mkCase None None true (print emb) [(5, "/* c */")] [true] (Some emb) OOk OOk (print emb) [] (Some emb) true true true true strict [].
 Theorem inline_comment_loss_is_the_known_finding :
   prop_ok (inl_case false) = true /\ prop_ok (inl_case true) = false.
 Proof. vm_compute. split; reflexivity. Qed.
@@ -119,7 +119,7 @@ Definition del_cmts : list cmt :=
 Definition del_same : list bool := [false; false; false; true; true; false].
 Definition del_case (out : list cmt) : case :=
   mkCase None None true (print del_api) del_cmts del_same (Some del_api) OOk OOk
-         (print (norm del_api)) out (Some (norm del_api)) true true true false [].
+         (print (norm del_api)) out (Some (norm del_api)) true true true true false [].
 Theorem comment_loss_excuses_are_narrow :
   prop_ok (del_case [(0, "// 2 above type"); (3, "// 3 own line in struct"); (14, "// 6 end of file")]) = true /\
   prop_ok (del_case [(3, "// 3 own line in struct"); (14, "// 6 end of file")]) = false /\
@@ -135,7 +135,7 @@ Definition seed5_api (tag : option string) : api :=
   [ SType ("T", false, DStruct [ (["A"], DStruct [ (["X"], DBase "int", None) ], tag) ]) ].
 Definition seed5_case (ftoks : list token) (fast : api) (fc : list cmt) : case :=
   mkCase None None true (print (seed5_api (Some "`json:""a""`"))) [(8, "// c")] [true]
-         (Some (seed5_api (Some "`json:""a""`"))) OOk OOk ftoks fc (Some fast) true true true false [].
+         (Some (seed5_api (Some "`json:""a""`"))) OOk OOk ftoks fc (Some fast) true true true true false [].
 Theorem seed5_tag_swallowed_refuted :
   agrees (seed5_case (print (seed5_api None)) (seed5_api None) [(8, "// c `json:""a""`")]) = true /\
   prop_ok (seed5_case (print (seed5_api None)) (seed5_api None) [(8, "// c `json:""a""`")]) = false.
